@@ -1733,11 +1733,10 @@ func ReadTerm(vm *VM, streamOrAlias, out, options Term, k Cont, env *Env) *Promi
 	}
 
 	p := NewParser(vm, s)
-	defer func() {
-		_ = s.UnreadRune()
-	}()
 
 	t, err := p.Term()
+	// The lexer has read one rune ahead. Give it back now, before the continuation gets a chance to read from s.
+	_ = s.UnreadRune()
 	switch err {
 	case nil:
 		break
@@ -1892,9 +1891,8 @@ func PeekByte(vm *VM, streamOrAlias, inByte Term, k Cont, env *Env) *Promise {
 	}
 
 	b, err := s.ReadByte()
-	defer func() {
-		_ = s.UnreadByte()
-	}()
+	// Give it back now, before the continuation gets a chance to read from s.
+	_ = s.UnreadByte()
 	switch err {
 	case nil:
 		return Unify(vm, inByte, Integer(b), k, env)
@@ -1930,9 +1928,8 @@ func PeekChar(vm *VM, streamOrAlias, char Term, k Cont, env *Env) *Promise {
 	}
 
 	r, _, err := s.ReadRune()
-	defer func() {
-		_ = s.UnreadRune()
-	}()
+	// Give it back now, before the continuation gets a chance to read from s.
+	_ = s.UnreadRune()
 	switch err {
 	case nil:
 		if r == unicode.ReplacementChar {
